@@ -626,6 +626,10 @@ namespace bluetoe {
                     return;
                 }
             }
+
+            // nothing was sent, so there will be no confirmation that could be waited for
+            if ( pending.first == details::notification_queue_entry_type::indication )
+                connection.indication_confirmed();
         }
 
         out_size = 0;
